@@ -399,24 +399,25 @@ theorem orderFront_go_map (φ : Seg → Seg) (n fuel i ns : Nat) (wl : Array Seg
       | some si =>
         simp only [Option.map_some]
         have k1 := (hφ i si hs).1
-        have hc : (i != ns && (φ si).offsetSet && (φ si).offset == 0) = (i != ns && si.offsetSet && si.offset == 0) := by
-          rw [Bool.and_assoc, Bool.and_assoc, k1]
+        have hc : save_gos_front (BitVec.ofNat 64 i) (BitVec.ofNat 64 ns) (φ si).offsetSet (φ si).offset =
+            save_gos_front (BitVec.ofNat 64 i) (BitVec.ofNat 64 ns) si.offsetSet si.offset := by
+          rw [save_gos_front_eq, save_gos_front_eq, Bool.and_assoc, Bool.and_assoc, k1]
         rw [hc]
-        by_cases hcond : (i != ns && si.offsetSet && si.offset == 0) = true
+        by_cases hcond : save_gos_front (BitVec.ofNat 64 i) (BitVec.ofNat 64 ns) si.offsetSet si.offset = true
         · simp only [hcond, if_true]
           rw [Array.getElem?_map]
           cases hsn : wl[ns]? with
           | none => rfl
           | some sn =>
             simp only [Option.map_some]
-            rw [(hφ ns sn hsn).2]
+            rw [show save_gos_slot_zero (φ sn).offset = save_gos_slot_zero sn.offset from (hφ ns sn hsn).2]
             rw [Array.getElem?_map]
-            cases hsn2 : wl[if (sn.offset == 0) = true then ns + 1 else ns]? with
+            cases hsn2 : wl[if save_gos_slot_zero sn.offset = true then ns + 1 else ns]? with
             | none => rfl
             | some sn2 =>
               simp only [Option.map_some]
-              have hm : ((wl.map φ).set! i (φ sn2)).set! (if (sn.offset == 0) = true then ns + 1 else ns) (φ si) =
-                  ((wl.set! i sn2).set! (if (sn.offset == 0) = true then ns + 1 else ns) si).map φ := by
+              have hm : ((wl.map φ).set! i (φ sn2)).set! (if save_gos_slot_zero sn.offset = true then ns + 1 else ns) (φ si) =
+                  ((wl.set! i sn2).set! (if save_gos_slot_zero sn.offset = true then ns + 1 else ns) si).map φ := by
                 simp only [Array.set!_eq_setIfInBounds, Array.map_setIfInBounds]
               rw [hm]
               apply ih
@@ -425,7 +426,7 @@ theorem orderFront_go_map (φ : Seg → Seg) (n fuel i ns : Nat) (wl : Array Seg
               · subst e; exact hφ i _ hs
               · subst e; exact hφ _ _ hsn2
               · exact hφ k g e
-        · have hcond' : (i != ns && si.offsetSet && si.offset == 0) = false := by simpa using hcond
+        · have hcond' : save_gos_front (BitVec.ofNat 64 i) (BitVec.ofNat 64 ns) si.offsetSet si.offset = false := by simpa using hcond
           simp only [hcond', Bool.false_eq_true, if_false]
           exact ih _ _ _ hφ
 
@@ -463,7 +464,7 @@ theorem orderFront_go_perm_any (n i ns : Nat) (wl out : Array Seg) (fuel : Nat)
           | some sn =>
             rw [hn] at h
             simp only at h
-            cases hn2 : wl[if (sn.offset == 0) = true then ns + 1 else ns]? with
+            cases hn2 : wl[if save_gos_slot_zero sn.offset = true then ns + 1 else ns]? with
             | none => rw [hn2] at h; simp [throw, throwThe, MonadExceptOf.throw] at h
             | some sn2 =>
               rw [hn2] at h
@@ -800,7 +801,7 @@ theorem save_twice_front {o : Obj} {os : OStream} {r r2 : SaveRes} {hd : Bytes}
         rw [List.getElem?_replicate] at this
         split at this <;> cases this
       · have hg1 : g ∈ segs1 := (hperm.mem_iff).1 hg
-        unfold withoutSegment
+        rw [withoutSegment_eq]
         simp only [Bool.not_eq_false', List.any_eq_true]
         refine ⟨backFn ordered2 g, ?_, idx, by rw [(hback g hg1).1]; exact hidxm, by simpa using e⟩
         rw [putBack_eq_map]; exact List.mem_map_of_mem hg1
